@@ -40,6 +40,11 @@ package cache
 //@   let armed = unbox(arg(SetTimer, 2), delayTask)
 //@   ensures [armed-at-1s] calls(SetTimer) == 1 && arg(SetTimer, 0) == timingWheel && arg(SetTimer, 3) == time.Second
 //@     | && typeis(arg(SetTimer, 2), delayTask) && armed.delay == time.Second && armed.task == task
+// every failed delete gets a retry task of its OWN: it is registered under a key drawn for it (SetTimer under an
+// existing key REPLACES the pending task - a second failed delete naming the same first key would cancel the retry
+// of the first, whose other keys would then never be removed), and it carries the keys it was given
+//@   ensures [own-timer-key] calls(Randn) == 1 && typeis(arg(SetTimer, 1), string) && unbox(arg(SetTimer, 1), string) == ret(Randn)
+//@   ensures [carries-its-keys] len(armed.keys) == len(keys) && forall(i, 0, len(keys), armed.keys[i] == keys[i])
 
 // Stored TTLs: the jittered expiry rounded UP to whole seconds (never down, so never below -5%; 0 would mean "no expiry").
 //@ func (node).setCacheWithNotFound
